@@ -96,7 +96,7 @@ def check(ctx):
             # exits of the branch
             rets = [r for r in ast.walk(cyc[0]) if isinstance(r, ast.Return)]
             raises = [r for r in ast.walk(cyc[0]) if isinstance(r, ast.Raise)]
-            ok_ret = any(unparse(r.value) == "cycle" and has_fact(inline_facts(f, r), "returncycle", True) is not None for r in rets)
+            ok_ret = any(eqv(r.value, "cycle") and has_fact(inline_facts(f, r), "returncycle", True) is not None for r in rets)
             ok_raise = any(r.exc is not None and "RuntimeError" in unparse(r.exc) for r in raises)
             loop_head = g.node_of(loops[0]) if loops else None
             falls = loop_head is not None and loop_head in reach and g.node_of(n) in reach
@@ -109,7 +109,7 @@ def check(ctx):
     for a, pname, by_none, by_truth, raw in none_default_rebinds(f):
         if pname != "keys":
             continue
-        if unparse(a.value) == "dsk":
+        if eqv(a.value, "dsk"):
             ctx.ob("REACH.keys-default", a, "keys = dsk only when keys is None", by_none and not by_truth, "" if by_none and not by_truth else "an empty list of start keys (or a falsy key such as 0) is replaced by the whole graph: getcycle/isdag report cycles that are not reachable from the requested keys")
     # ---------------- termination of the cycle reconstruction (every loop in the cycle branch has a
     # termination argument from the catalogue; a graph walk without one can spin forever)
@@ -148,18 +148,18 @@ def check(ctx):
     # final returns
     rs = returns(f)
     tail = [r for r in rs if not enclosing_loops(r)]
-    ok = any(unparse(r.value) == "ordered" for r in tail) and any(isinstance(r.value, ast.List) and not r.value.elts and has_fact(inline_facts(f, r), "returncycle", True) is not None for r in tail)
+    ok = any(eqv(r.value, "ordered") for r in tail) and any(isinstance(r.value, ast.List) and not r.value.elts and has_fact(inline_facts(f, r), "returncycle", True) is not None for r in tail)
     ctx.ob("MPT.final-return", f, "return [] in cycle mode, ordered otherwise", ok)
     # wrappers
     t = mod.func("toposort")
-    ok = any(call_name(c) == "_toposort" and kwarg(c, "returncycle") is None and len(c.args) >= 1 and unparse(c.args[0]) == "dsk" for c in calls(t)) and all(isinstance(r.value, ast.Call) for r in returns(t))
+    ok = any(call_name(c) == "_toposort" and kwarg(c, "returncycle") is None and len(c.args) >= 1 and eqv(c.args[0], "dsk") for c in calls(t)) and all(isinstance(r.value, ast.Call) for r in returns(t))
     # every key is a start key: the wrapper must not narrow `keys` (a cycle that nothing else depends on
     # would never be visited) and must hand the graph on unchanged
     tcalls = [c for c in calls(t) if call_name(c) == "_toposort"]
     ok = ok and len(tcalls) == 1 and kwarg(tcalls[0], "keys") is None and len(tcalls[0].args) == 1 and len(returns(t)) == 1
     ctx.ob("DELEG.modes.toposort", t, "toposort = _toposort(dsk, dependencies=dependencies) -- no start-key selection", ok, "" if ok else "toposort restricts the traversal to selected start keys: keys only reachable through a cycle are never visited and the cycle is not reported")
     gc = mod.func("getcycle")
-    ok = any(call_name(c) == "_toposort" and const(kwarg(c, "returncycle")) is True and unparse(kwarg(c, "keys")) == "keys" and unparse(c.args[0]) == "d" for c in calls(gc))
+    ok = any(call_name(c) == "_toposort" and const(kwarg(c, "returncycle")) is True and unparse(kwarg(c, "keys")) == "keys" and eqv(c.args[0], "d") for c in calls(gc))
     rebinds = [a for a in walk_no_nested(gc) if isinstance(a, (ast.Assign, ast.AugAssign)) and any(isinstance(t_, ast.Name) and t_.id == "keys" for t_ in (a.targets if isinstance(a, ast.Assign) else [a.target]))]
     ok = ok and not rebinds
     ctx.ob("DELEG.modes.getcycle", gc, "getcycle = _toposort(d, keys=keys, returncycle=True) with the caller's keys, unmodified", ok, "" if ok else "the requested start keys are replaced (e.g. when falsy): cycles that are not reachable from the request are reported")
